@@ -323,6 +323,7 @@ func checkC19(c *Ctx) (string, error) {
 	c.Rule("R19.4", "shared type objects are never modified through a value (no assignment to the type fields of an Expr)", 1)
 	checkC19b(c, sp)
 	checkSliceDataLenPairs(c, sp)
+	checkAfterInitAnchor(c, sp)
 	checkPyCalleeSource(c, cp)
 
 	pv := findFunc(sp, "Builder.PyVal")
